@@ -76,10 +76,11 @@ def _serialize_element(
     if not schema.get("properties", True):
         del schema["properties"]
     if "properties" in schema:
-        schema["required"] = [
+        explicit = list(schema.get("required", []))
+        schema["required"] = explicit + [
             prop.source or name
             for name, prop in schema["properties"].items()
-            if prop.required
+            if prop.required and (prop.source or name) not in explicit
         ]
     if not schema.get("required", True):
         del schema["required"]
